@@ -472,16 +472,26 @@ Fixpoint replay (K : nat) (st : state) (its : list item) (i : nat) : state * opt
   end.
 
 (* frame ids in a case are shifted by 2: the harness numbers the file Env 1 and the top Env 0 as the model does *)
-Record case := mkCase { c_idx : Z; c_items : list item; c_dump : list fdump (* frames 2.. *); c_nframes : nat }.
+Inductive case :=
+| mkCase (c_idx : Z) (c_items : list item) (c_dump : list fdump (* frames 2.. *)) (c_nframes : nat)
+| mkHist (c_idx : Z) (K : nat) (ops : list op).   (* synthetic history: frame machine (capacity K and 32) vs Go-spec machine *)
+
+Definition c_idx (c : case) : Z := match c with mkCase i _ _ _ => i | mkHist i _ _ => i end.
 
 Definition case_ok (c : case) : bool :=
-  match replay poolCapacity init (c_items c) 0 with
-  | (st, None) => dumps_ok st 2 (c_dump c) && (length (frames st) =? c_nframes c)
-  | (_, Some _) => false
+  match c with
+  | mkCase _ items dump nframes =>
+      match replay poolCapacity init items 0 with
+      | (st, None) => dumps_ok st 2 dump && (length (frames st) =? nframes)
+      | (_, Some _) => false
+      end
+  | mkHist _ K ops =>
+      outs_refine (outputs K ops) (soutputs ops) && outs_refine (outputs poolCapacity ops) (soutputs ops)
   end.
 
 Definition mismatches (cs : list case) : list Z :=
   map c_idx (filter (fun c => negb (case_ok c)) cs).
 
 (* where a case first disagrees (debugging aid) *)
-Definition first_bad (c : case) : option nat := snd (replay poolCapacity init (c_items c) 0).
+Definition first_bad (c : case) : option nat :=
+  match c with mkCase _ items _ _ => snd (replay poolCapacity init items 0) | mkHist _ _ _ => None end.
